@@ -1,6 +1,7 @@
 #!/bin/bash
-# usage: tools/killprop.sh C07   -- kills runner + kani/cbmc processes working under /verif/work/<PROP> (by pid, never by pattern-kill)
+# usage: tools/killprop.sh C07   -- kills the runner started from /verif for that property and the kani/cbmc processes working under /verif/work/<PROP>
+# (by pid and working directory, never by pattern-kill; runs started from another copy of /verif - e.g. a `vp run` snapshot - are left alone)
 P=$1
-for pid in $(ps -eo pid,args | grep "gen/run.py --prop $P" | grep -v grep | grep -v "bash -c" | awk '{print $1}'); do kill -9 $pid 2>/dev/null; done
+for pid in $(ps -eo pid,args | grep "gen/run.py --prop $P" | grep -v grep | grep -v "bash -c" | awk '{print $1}'); do d=$(readlink /proc/$pid/cwd 2>/dev/null); [ "$d" = "/verif" ] && kill -9 $pid 2>/dev/null; done
 for pid in $(ps -eo pid,comm | grep -E "cbmc|cargo-kani|kani-driver|cargo|rustc|goto" | awk '{print $1}'); do d=$(readlink /proc/$pid/cwd 2>/dev/null); case "$d" in /verif/work/$P/*|/verif/work/$P) kill -9 $pid 2>/dev/null;; esac; done
 echo killed
